@@ -465,3 +465,71 @@ Definition exr_pre : list op :=
 Definition exr_tie : list header := [ex_f2; ex_f3].            (* two headers against two *)
 Definition exr_lighter : list header := [ex_f2].               (* one against two *)
 Definition exr_heavier : list header := [ex_f2; ex_f3; ex_f4]. (* three against two *)
+
+(* ---------- the monitor's test for the positive reorganisation half ---------- *)
+Lemma valid_run_length_eq P now msg : forall pre,
+  length (valid_run P now pre msg) = length msg -> valid_run P now pre msg = msg.
+Proof.
+  induction msg as [|m msg IH]; intros pre H; cbn [valid_run] in *; [done|].
+  destruct (valid_next P pre now m); [|done]. cbn [length] in H. f_equal. apply IH. lia.
+Qed.
+
+Definition reorg_hyps (P : params) (now : Z) (before msg : list header) (listened : bool) (f : Z) (e : list header) : Prop :=
+  let pre := take (Z.to_nat (f + 1)) before in
+  forks_at before msg f = true /\
+  valid_run P now pre msg = msg /\
+  reached_cp P before <= f /\
+  work_of msg > work_of (drop (Z.to_nat (f + 1)) before) /\
+  listened = true /\
+  ((below_next_checkpoint P before (f + zlen msg) = true /\ e = pre ++ msg) \/
+   (checkpoints_ok P (pre ++ msg) = true /\ e = pre ++ upto_checkpoint P f msg)).
+
+Lemma must_adopt_reorg_hyps P now before msg listened e : zlen before <= LIMIT ->
+  must_adopt_reorg P now before msg listened = Some e ->
+  exists f, reorg_hyps P now before msg listened f e.
+Proof.
+  intros HL. unfold must_adopt_reorg. destruct (fork_height before msg) as [f|]; [|done].
+  destruct (forks_at before msg f) eqn:Hf; [|done]. cbn [andb].
+  destruct (forks_at_inv _ _ _ Hf) as (m & rest & b & d & _ & Hb & Hd & _).
+  pose proof (at_h_Some _ _ _ Hb) as Hbr. pose proof (at_h_Some _ _ _ Hd) as Hdr.
+  rewrite zn_eq by (unfold LIMIT in *; lia).
+  destruct (_ =? _)%nat eqn:E1; [|done]. destruct (_ <=? f) eqn:E2; [|done].
+  destruct (_ >? _) eqn:E3; [|done]. destruct listened; [|done]. cbn [andb].
+  intros Hm. exists f. unfold reorg_hyps.
+  split; [done|]. split; [apply valid_run_length_eq; lia|]. split; [lia|]. split; [lia|]. split; [done|].
+  destruct (below_next_checkpoint _ _ _); [injection Hm as <-; by left|].
+  destruct (checkpoints_ok _ _) eqn:E5; [|done]. injection Hm as <-. by right.
+Qed.
+
+Lemma monitor_reorg_sound P gfh ops p now msg e :
+  let o := OHeaders p now msg in
+  wf_params P -> no_collision P (ops ++ [o]) -> wf_hist P (ops ++ [o]) ->
+  let s := run P (init_state P gfh) ops in
+  must_adopt_reorg P now (chain s) msg (listened_to P now s p) = Some e ->
+  (exists f, reorg_hyps P now (chain s) msg (listened_to P now s p) f e) /\
+  chain (step P s o) = e.
+Proof.
+  intros o HP HU HW s Hm.
+  destruct (reach_step_hyps P gfh ops o HP HU HW) as (HUu & HI & _ & _). fold s in HI.
+  destruct (i_chain _ _ _ _ HI) as [tl Htl]. pose proof (co_lim _ _ _ _ _ Htl) as HLc.
+  destruct (must_adopt_reorg_hyps P now (chain s) msg _ e HLc Hm) as [f Hh].
+  split; [by exists f|].
+  destruct Hh as (H1 & H2 & H3 & H4 & H5 & [[H6 ->]|[H6 ->]]).
+  - by apply (heavier_branch_adopted P gfh ops p now msg f HP HU HW).
+  - by apply (heavier_branch_adopted_to_checkpoint P gfh ops p now msg f HP HU HW).
+Qed.
+
+(* the peer condition depends on the stored chain, the sync peer's identity
+   and the sync peer's announced and starting heights only *)
+Lemma listened_to_ext P now s s' p :
+  chain s' = chain s -> syncPeer s' = syncPeer s ->
+  (forall q, syncPeer s = Some q ->
+     lastBlock (get_peer s' q) = lastBlock (get_peer s q) /\ startH (get_peer s' q) = startH (get_peer s q)) ->
+  listened_to P now s' p = listened_to P now s p.
+Proof.
+  intros Hc Hs Hq. unfold listened_to, is_sync, headers_synced, chain_tip, tip_height. rewrite Hc, Hs.
+  destruct (syncPeer s) as [q|]; [|reflexivity]. destruct (Hq q eq_refl) as [-> ->]. reflexivity.
+Qed.
+Lemma listened_to_obs P now s p :
+  listened_to P now (obs_state (chain s) (syncPeer s) (peers s)) p = listened_to P now s p.
+Proof. apply listened_to_ext; [reflexivity|reflexivity|]. intros q _. split; reflexivity. Qed.
